@@ -3605,6 +3605,10 @@ class _CacheWrapper:
     def __init__(self, immutable_warranty: str = 'pickle'):
         self._serialize, self._deserialize = _get_serialize_and_deserialize(
             immutable_warranty)
+        if immutable_warranty == 'copy':
+            # Keep a private copy: The value that is handed out on a cache
+            # miss must not alias the cache entry.
+            self._serialize = deepcopy
         self.cache = {}
 
     def __getitem__(self, item):
